@@ -22,6 +22,7 @@ from vlib import env
 
 VERIF_DIR = env.VERIF_DIR
 HISTORY_CAP = 3000
+SHRINK_BUDGET = {'quick': 25, 'thorough': 180}  # seconds a worker keeps shrinking after its first failure
 
 
 class Violation(Exception):
@@ -123,7 +124,34 @@ def run_sub_in_worker(spec, sub: Sub, tier: str, seed: int, shard: int, nshards:
                     res['samples'].append({'sub': sub.name, 'case': shorten(info.get('sample', case)),
                                            'classes': sorted(info.get('cls', ()))})
 
+    # Shrinking is bounded in time: SHRINK_BUDGET seconds after the first failure of this worker, candidates that have not
+    # been seen failing are no longer executed (they count as passing), so that the shrinker settles on the smallest
+    # failing case it has; cases already seen failing keep failing, which keeps the final re-run consistent.
+    failing: dict = {}
+    budget_s = SHRINK_BUDGET.get(tier, 60)
+    try:
+        # the library's own cap on the shrink phase (300 s by default), for the cost of re-generating large cases
+        import hypothesis.internal.conjecture.engine as _engine
+
+        _engine.MAX_SHRINKING_SECONDS = budget_s
+    except Exception:  # noqa
+        pass
+
+    def case_key(case):
+        return hashlib.sha1(json.dumps(case, sort_keys=True, default=str).encode()).hexdigest()
+
+    def remember(case, v):
+        state['last'] = (case, v.bucket, v.message, list(history)[:-1])
+        state.setdefault('first_fail_t', time.time())
+        failing[case_key(case)] = (v.bucket, v.message, state['last'][3])
+
     def run_case(case):
+        if 'first_fail_t' in state and time.time() - state['first_fail_t'] > budget_s:
+            known = failing.get(case_key(case))
+            if known is None:
+                return
+            state['last'] = (case, known[0], known[1], known[2])
+            raise Violation(known[0], known[1])
         history.append(case)
         try:
             info = sub.check(case)
@@ -133,7 +161,7 @@ def run_sub_in_worker(spec, sub: Sub, tier: str, seed: int, shard: int, nshards:
                 res['known_hits'][kf] = res['known_hits'].get(kf, 0) + 1
                 res['evaluations'] += 1
                 return
-            state['last'] = (case, v.bucket, v.message, list(history)[:-1])
+            remember(case, v)
             raise
         except (hypothesis.errors.HypothesisException, KeyboardInterrupt):
             raise
@@ -149,7 +177,7 @@ def run_sub_in_worker(spec, sub: Sub, tier: str, seed: int, shard: int, nshards:
                 res['known_hits'][kf] = res['known_hits'].get(kf, 0) + 1
                 res['evaluations'] += 1
                 return
-            state['last'] = (case, v.bucket, v.message, list(history)[:-1])
+            remember(case, v)
             raise v from e
         account(case, info)
 
